@@ -198,13 +198,32 @@ impl RunSched {
 pub struct RandomScheduler {
     pub global: Rng,
     pub runs: Vec<RunSched>,
+    /// simultaneous runs: run r is not started before this many global steps
+    /// (while another run can still act) - so that a run is also created when the
+    /// others are half-way or nearly done
+    pub start_hold: Vec<u32>,
+    pub steps: u32,
 }
 
 impl Scheduler for RandomScheduler {
     fn next(&mut self, enabled: &[RunView]) -> Option<(usize, Action)> {
-        let cands: Vec<&RunView> = enabled.iter().filter(|v| !v.actions.is_empty()).collect();
+        let mut cands: Vec<&RunView> = enabled.iter().filter(|v| !v.actions.is_empty()).collect();
         if cands.is_empty() {
             return None;
+        }
+        self.steps += 1;
+        if cands.len() > 1 {
+            let held: Vec<&RunView> = cands
+                .iter()
+                .copied()
+                .filter(|v| {
+                    !(v.actions.contains(&Action::Start)
+                        && self.start_hold.get(v.run).copied().unwrap_or(0) >= self.steps)
+                })
+                .collect();
+            if !held.is_empty() {
+                cands = held;
+            }
         }
         let v = if cands.len() == 1 {
             cands[0]
